@@ -27,8 +27,8 @@ pub fn spec(id: &str) -> Option<Spec> {
       "C02" => Spec {
          id: "C02",
          level: "exploration",
-         quick_cases: 12_000,
-         thorough_cases: 400_000,
+         quick_cases: 60000,
+         thorough_cases: 1500000,
          rule: COMMON_RULE,
          assumptions: common_assumptions(),
          expected_probes: vec!["preempt", "steal", "plan_flip_len_noise", "plan_flip_empty_mask", "shard_override"],
@@ -36,8 +36,8 @@ pub fn spec(id: &str) -> Option<Spec> {
       "C05" => Spec {
          id: "C05",
          level: "exploration",
-         quick_cases: 12_000,
-         thorough_cases: 400_000,
+         quick_cases: 60000,
+         thorough_cases: 1500000,
          rule: COMMON_RULE,
          assumptions: common_assumptions(),
          expected_probes: vec!["preempt", "steal", "shard_override"],
@@ -45,8 +45,8 @@ pub fn spec(id: &str) -> Option<Spec> {
       "C10" => Spec {
          id: "C10",
          level: "exploration",
-         quick_cases: 10_000,
-         thorough_cases: 300_000,
+         quick_cases: 40000,
+         thorough_cases: 1000000,
          rule: "One case = one ascent_par! program whose binary relation is tagged #[ds(eqrel)] (concurrent provider ceqrel_ind: one mutex-protected union-find written by all workers, frozen old/combined pair read by all workers), one input, one run under a seeded schedule; compared on every plain relation with the explicit-closure twin (reflexive/symmetric/transitive rules written out) evaluated serially. About 15% of the cases run the serial eqrel provider instead (baseline configuration, no schedule; never counted as non-trivial). Non-trivial/distinct as for C02.",
          assumptions: {
             let mut a = common_assumptions();
@@ -58,8 +58,8 @@ pub fn spec(id: &str) -> Option<Spec> {
       "C13" => Spec {
          id: "C13",
          level: "exploration",
-         quick_cases: 10_000,
-         thorough_cases: 300_000,
+         quick_cases: 30000,
+         thorough_cases: 600000,
          rule: "One case = one program value driven through a seeded history (run | push facts into any relation, also derived ones | run again, each run under its own pool and schedule). Model = set of facts pushed so far; after every completed run the state is compared with the previous snapshot (idempotence, if nothing was pushed) and, for positive programs, with the serial twin run fresh on the model. Non-trivial/distinct as for C02 (>= 1 preemption; distinct trace hashes); serial-variant histories (baseline configuration, no schedule) never count as non-trivial.",
          assumptions: common_assumptions(),
          expected_probes: vec!["preempt", "steal", "pool_switch"],
@@ -67,8 +67,8 @@ pub fn spec(id: &str) -> Option<Spec> {
       "C14" => Spec {
          id: "C14",
          level: "fault_enumeration",
-         quick_cases: 12_000,
-         thorough_cases: 300_000,
+         quick_cases: 40000,
+         thorough_cases: 800000,
          rule: "Fault = the virtual clock jumps past the timeout at clock reading k. For every group (program, input, knobs, schedule plan) a dry run with a stalled clock measures R, the number of clock readings of the uninterrupted run, and then every k in 1..=min(R, 99) is executed as its own case (run_timeout struck at k, then an uninterrupted run()); further slots of a group are seeded sequences of up to 4 interruptions (ticking clocks, large jumps, timeout 0, Duration::MAX, pushes in between). Returned false => state must be a sound under-approximation of the fixed point; any completed call => exactly the fixed point. Non-trivial = the deadline actually struck (run_timeout returned false at least once) or, for parallel variants, >= 1 preemption; distinct = distinct (trace hash, strike reading) pairs.",
          assumptions: {
             let mut a = common_assumptions();
@@ -80,8 +80,8 @@ pub fn spec(id: &str) -> Option<Spec> {
       "C19" => Spec {
          id: "C19",
          level: "exploration",
-         quick_cases: 20_000,
-         thorough_cases: 600_000,
+         quick_cases: 150000,
+         thorough_cases: 3000000,
          rule: "One case = one index type (CRelIndex, CRelFullIndex, CLatIndex, CRelNoIndex; ~15% the serial types as baseline) driven as a (new, delta, total) triple through 2-5 rounds of: owner-side inserts through the &mut path, 1-4 simulated workers inserting / insert-if-absent concurrently into `new` (few keys, unique values), optional freeze+read-back of `new`, merge_delta_to_total_new_to_delta, freeze, reads of present and absent keys through index_get / c_index_get / iter_all / c_iter_all / contains_key / len_estimate / is_empty and the RelIndexCombined view (the c_ variants through the real rayon plumbing on the simulated pool), unfreeze. Checked operation by operation against a sequential multimap model plus a per-key first-writer-wins linearizability check over invoke/return events stamped with the simulator's global event sequence number. Non-trivial/distinct as for C02.",
          assumptions: {
             let mut a = common_assumptions();
@@ -93,8 +93,8 @@ pub fn spec(id: &str) -> Option<Spec> {
       "C20" => Spec {
          id: "C20",
          level: "exploration",
-         quick_cases: 10_000,
-         thorough_cases: 300_000,
+         quick_cases: 30000,
+         thorough_cases: 600000,
          rule: "One case = 1-3 program instances (same or different generated types, serial and parallel mixed) constructed and run concurrently on their own simulated threads, each construction and each run under its own pool reference (global pool, one of up to 3 custom pools of size 1/2/3/4/8, or a nested install), optionally run a second time under another pool; worker processes differ in the pool size that first evaluated the process-wide shard-count Lazy. Every instance must equal its serial twin run alone. Non-trivial/distinct as for C02.",
          assumptions: common_assumptions(),
          expected_probes: vec!["preempt", "steal", "co_tenant", "pool_switch"],
